@@ -37,6 +37,9 @@ type EntityJ struct {
 	Requires  []KeyFieldJ `json:"requires"`  // @requires field-set paths, in field order
 	ReqFields []string    `json:"reqFields"` // names of the fields carrying @requires (computed_requires resolvers)
 	Fields    []string    `json:"fields"`    // all field names, schema order
+	// Carrier is the response field that shows which call an element was resolved by: `tag` when the type has
+	// one, else (key-only entities) its first ID/String field - the stubs write the call there, the query selects it
+	Carrier string `json:"carrier"`
 }
 
 type ConfigJ struct {
@@ -104,20 +107,24 @@ func dirArg(d *ast.Directive, name string) *ast.Argument {
 	return nil
 }
 
-func loadDoc(v Variant, probes string) *ast.SchemaDocument {
+func probeSrc(v Variant, probes string) string {
 	src, err := os.ReadFile(v.schemaFile(probes))
 	if err != nil {
 		die(err)
 	}
-	doc, perr := parser.ParseSchema(&ast.Source{Name: "schema.graphql", Input: string(src)})
-	if perr != nil {
-		die(perr)
-	}
-	return doc
+	return string(src)
 }
 
 func buildConfig(v Variant, probes string) ConfigJ {
-	doc := loadDoc(v, probes)
+	return buildConfigSrc(v, probeSrc(v, probes))
+}
+
+// buildConfigSrc derives the entity table of variant v from the schema text src.
+func buildConfigSrc(v Variant, src string) ConfigJ {
+	doc, perr := parser.ParseSchema(&ast.Source{Name: "schema.graphql", Input: src})
+	if perr != nil {
+		die(perr)
+	}
 	types := map[string]*ast.Definition{}
 	for _, d := range doc.Definitions {
 		types[d.Name] = d
@@ -177,6 +184,16 @@ func buildConfig(v Variant, probes string) ConfigJ {
 		}
 		for _, f := range def.Fields {
 			e.Fields = append(e.Fields, f.Name)
+		}
+		if def.Fields.ForName("tag") != nil {
+			e.Carrier = "tag"
+		} else {
+			for _, f := range def.Fields {
+				if n := f.Type.Name(); f.Type.Elem == nil && (n == "ID" || n == "String") {
+					e.Carrier = f.Name
+					break
+				}
+			}
 		}
 		// does the entity get resolvers? (not when every field is external, explicitly or - federation 2,
 		// first key non-resolvable - implicitly because it is a field of the first key)
@@ -252,6 +269,8 @@ func buildQuery(cfg ConfigJ, types map[string]*ast.Definition) string {
 		} else {
 			if has("tag") {
 				sels = append(sels, "tag")
+			} else if e.Carrier != "" {
+				sels = append(sels, e.Carrier)
 			}
 			if has("reqEcho") {
 				sels = append(sels, "reqEcho")
